@@ -490,13 +490,13 @@ read back from a storage, deep copies and unpickled objects. -/
 theorem slice_append_arith_operator_results_fresh {s s' : State K} {op : Op K} (hwf : WF s)
     (hop : (∃ c idx, op = .slice c idx) ∨ (∃ c hs, op = .append c hs) ∨
       (∃ hs dt, op = .mkColl hs true dt) ∨ (∃ h, op = .neg h) ∨ (∃ o a b, op = .binop o a b) ∨
-      (∃ c g dt x i, op = .mkField c g dt x i) ∨ (∃ h, op = .storeFrame h) ∨
+      (∃ c g dt x i, op = .mkField c g dt x i) ∨ (∃ h d, op = .storeFrame h d) ∨
       (∃ t f, op = .loadFrame t f) ∨ (∃ h, op = .deepcopy h))
     (hs : step G s op = .ok s') {i j : Nat} (hi : s.objs.length ≤ i) (hi' : i < s'.objs.length)
     (hj : j < s.objs.length) (ops : List (Op K)) : aliases (run G s' ops) i j = false := by
   have hc : copying op := by
     rcases hop with ⟨_, _, rfl⟩ | ⟨_, _, rfl⟩ | ⟨_, _, rfl⟩ | ⟨_, rfl⟩ | ⟨_, _, _, rfl⟩ |
-      ⟨_, _, _, _, _, rfl⟩ | ⟨_, rfl⟩ | ⟨_, _, rfl⟩ | ⟨_, rfl⟩ <;> simp [copying]
+      ⟨_, _, _, _, _, rfl⟩ | ⟨_, _, rfl⟩ | ⟨_, _, rfl⟩ | ⟨_, rfl⟩ <;> simp [copying]
   have hl := (step_spec G hwf hs).1.len_le
   exact disjoint_forever (wf_step hwf hs) (by omega) hi' (by omega)
     (fresh_results hwf hs hc hi hi' hj).1 ops
